@@ -13,6 +13,7 @@ import (
 	"strings"
 
 	"go.brendoncarroll.net/p2p"
+	"go.brendoncarroll.net/p2p/f/x509/oids"
 	"go.brendoncarroll.net/p2p/p/kademlia"
 	"go.brendoncarroll.net/p2p/p/mbapp"
 	"go.brendoncarroll.net/p2p/p/p2pke"
@@ -51,6 +52,25 @@ func srcDo(op []string) string {
 		case "ke gate":
 			cs, cr, rd := p2pke.VerifGates(op[2] == "1", uint8(u(3)))
 			return b2s(cs) + b2s(cr) + b2s(rd)
+		case "oid rt":
+			// an algorithm identifier built from arcs and read back: Len, every At, ASN1, IsZero
+			var arcs []int
+			if op[2] != "-" {
+				for _, t := range strings.Split(op[2], ".") {
+					v, _ := strconv.ParseInt(t, 10, 64)
+					arcs = append(arcs, int(v))
+				}
+			}
+			o := oids.New(arcs...)
+			var at []string
+			for i := 0; i < o.Len(); i++ {
+				at = append(at, strconv.FormatUint(o.At(i), 10))
+			}
+			var as []string
+			for _, x := range o.ASN1() {
+				as = append(as, strconv.Itoa(x))
+			}
+			return fmt.Sprintf("len=%d at=%s asn1=%s zero=%s", o.Len(), strings.Join(at, "."), strings.Join(as, "."), b2s(o.IsZero()))
 		case "mtu mb", "mtu frag":
 			// MTU() of a real message-box / fragmenting swarm over an in-memory transport of the given MTU
 			r := memswarm.NewRealm(memswarm.WithMTU(n(2)))
@@ -281,6 +301,18 @@ func srcStream(r *rand.Rand, n int, tier string, o *hx.Out) {
 			z := append(make([]byte, r.Intn(4)), x...)
 			emit("kad lz " + hx.Hex(z))
 		case 15:
+			if r.Intn(4) == 0 {
+				var arcs []string
+				for k := hx.Pick(r, 0, 1, 2, 3, 7, r.Intn(12)); k > 0; k-- {
+					arcs = append(arcs, strconv.Itoa(hx.Pick(r, 0, 1, 2, 3, 101, 112, 127, 128, 129, 200, 255, 256, 840, 113549, 1<<31-1, 1<<31, 1<<32, 1<<62, 1<<63-1, -1, -128, r.Intn(1<<20))))
+				}
+				a := "-"
+				if len(arcs) > 0 {
+					a = strings.Join(arcs, ".")
+				}
+				emit("oid rt " + a)
+				break
+			}
 			if r.Intn(3) == 0 {
 				inner := hx.Pick(r, 1, 14, 15, 16, 23, 24, 25, 26, 40, 200, 1200, 65536, r.Intn(300))
 				cfg := hx.Pick(r, 0, 1, 100, 255, 256, 65535, 65536, 1<<20, (inner-24)*65535, (inner-24)*65535+1, (inner-15)*255, (inner-15)*255-1, r.Intn(100000))
